@@ -1100,6 +1100,51 @@ func (x *c12) r4() {
 					}
 				}
 			}
+			// … or the read is taken only on the true edge of a function of the package every `return true` of
+			// which has passed the assignment of the flag (`if vm.recoverFrame(last) { msg = … }`)
+			isMark := func(m ast.Node) bool {
+				as, ok := m.(*ast.AssignStmt)
+				if !ok || len(as.Lhs) != 1 || len(as.Rhs) != 1 || c11FieldOf(x.info, as.Lhs[0]) != fRecovered {
+					return false
+				}
+				ls, ok := ast.Unparen(as.Lhs[0]).(*ast.SelectorExpr)
+				tv, has := x.info.Types[as.Rhs[0]]
+				return ok && has && tv.Value != nil && tv.Value.String() == "true" && c11FieldOf(x.info, ls.X) == a.fPanic
+			}
+			if !marked && lc.GuardedBy(se, func(l Lit) bool {
+				hc, ok := ast.Unparen(l.Expr).(*ast.CallExpr)
+				if !ok || l.Tag != nil || !l.Truth {
+					return false
+				}
+				hf := callee(x.info, hc)
+				for _, h := range x.rtFuncs() {
+					if h.Obj != hf || hf == nil {
+						continue
+					}
+					hcfg := r.P.CFGOf(h)
+					ntrue, all := 0, true
+					for _, rs := range hcfg.Returns() {
+						if len(rs.Results) != 1 {
+							return false
+						}
+						tv, has := x.info.Types[rs.Results[0]]
+						if !has || tv.Value == nil {
+							return false // not a constant: the summary is not readable
+						}
+						if tv.Value.String() != "true" {
+							continue
+						}
+						ntrue++
+						if !hcfg.MustPassNode(rs, isMark) {
+							all = false
+						}
+					}
+					return ntrue > 0 && all
+				}
+				return false
+			}) {
+				marked = true
+			}
 			o.Set(marked, "the block that reads vm."+a.fPanic.Name()+"."+x.fMessage.Name()+" also sets vm."+a.fPanic.Name()+"."+fRecovered.Name()+" = true", "the message of the current panic is handed to the program without setting its "+fRecovered.Name()+" flag in the same block")
 			return true
 		})
